@@ -44,12 +44,12 @@ var patchValues = parseAll(patchValuesSrc)
 
 // AlphaCfg tunes the operation alphabet Σ(D).
 type AlphaCfg struct {
-	Values     []*rj.Value // for add (all pointers)
-	ReplValues []*rj.Value // for replace
-	Kinds      map[string]bool
-	NoRootPtr  bool // leave "" out (legacy domain: no root add / copy from "")
-	EnsureLen  int  // >0: the alphabet is SigmaEnsure(EnsureLen, Values) instead
-	NoRootAdd  bool // drop add "" and copy from "" (not offered by the legacy package)
+	Values      []*rj.Value // for add (all pointers)
+	ReplValues  []*rj.Value // for replace
+	Kinds       map[string]bool
+	NoRootPtr   bool // leave "" out (legacy domain: no root add / copy from "")
+	EnsureLen   int  // >0: the alphabet is SigmaEnsure(EnsureLen, Values) instead
+	NoRootAdd   bool // drop add "" and copy from "" (not offered by the legacy package)
 	InteriorNeg bool // also address the children of a last array element through the token -1 (negative index as an interior token)
 }
 
